@@ -119,49 +119,59 @@ def nthroot(x, n):
     except (ValueError, TypeError):
         return complex(x) ** r
 
+def _sinpi_cospi_reduced(r, f_sin, f_cos, z):
+    # sin(pi*z), cos(pi*z) where z has real part r in [0, 0.5). The argument
+    # passed to sin/cos is kept within [0, pi/4] (0.5-r is exact), so that
+    # results next to a zero keep full relative accuracy
+    if r <= 0.25:
+        z = pi*z
+        return f_sin(z), f_cos(z)
+    z = pi*(0.5-z)
+    return f_cos(z), f_sin(z)
+
 def _sinpi_real(x):
     if x < 0:
         return -_sinpi_real(-x)
     n, r = divmod(x, 0.5)
-    r *= pi
+    s, c = _sinpi_cospi_reduced(r, math.sin, math.cos, r)
     n %= 4
-    if n == 0: return math.sin(r)
-    if n == 1: return math.cos(r)
-    if n == 2: return -math.sin(r)
-    if n == 3: return -math.cos(r)
+    if n == 0: return s
+    if n == 1: return c
+    if n == 2: return -s
+    if n == 3: return -c
 
 def _cospi_real(x):
     if x < 0:
         x = -x
     n, r = divmod(x, 0.5)
-    r *= pi
+    s, c = _sinpi_cospi_reduced(r, math.sin, math.cos, r)
     n %= 4
-    if n == 0: return math.cos(r)
-    if n == 1: return -math.sin(r)
-    if n == 2: return -math.cos(r)
-    if n == 3: return math.sin(r)
+    if n == 0: return c
+    if n == 1: return -s
+    if n == 2: return -c
+    if n == 3: return s
 
 def _sinpi_complex(z):
     if z.real < 0:
         return -_sinpi_complex(-z)
     n, r = divmod(z.real, 0.5)
-    z = pi*complex(r, z.imag)
+    s, c = _sinpi_cospi_reduced(r, cmath.sin, cmath.cos, complex(r, z.imag))
     n %= 4
-    if n == 0: return cmath.sin(z)
-    if n == 1: return cmath.cos(z)
-    if n == 2: return -cmath.sin(z)
-    if n == 3: return -cmath.cos(z)
+    if n == 0: return s
+    if n == 1: return c
+    if n == 2: return -s
+    if n == 3: return -c
 
 def _cospi_complex(z):
     if z.real < 0:
         z = -z
     n, r = divmod(z.real, 0.5)
-    z = pi*complex(r, z.imag)
+    s, c = _sinpi_cospi_reduced(r, cmath.sin, cmath.cos, complex(r, z.imag))
     n %= 4
-    if n == 0: return cmath.cos(z)
-    if n == 1: return -cmath.sin(z)
-    if n == 2: return -cmath.cos(z)
-    if n == 3: return cmath.sin(z)
+    if n == 0: return c
+    if n == 1: return -s
+    if n == 2: return -c
+    if n == 3: return s
 
 cospi = _mathfun_real(_cospi_real, _cospi_complex)
 sinpi = _mathfun_real(_sinpi_real, _sinpi_complex)
